@@ -418,17 +418,24 @@ def explore(scenario, bound, on_run, max_runs=None):
     Run (must be deterministic for a given schedule); on_run(run) is called for
     every execution.  Every schedule with at most `bound` preemptions is
     executed exactly once.  Returns dict(runs=, truncated=)."""
-    work = [()]               # schedule prefixes still to run
+    work = [[] for _ in range(bound + 1)]      # schedule prefixes still to run, by preemptions used
+    work[0].append(())
+    complete = -1             # all schedules with <= complete preemptions were executed
     n = 0
     pruned = 0
     cached = 0
     visited = {}
     truncated = False
-    while work:
+    while True:
+        lvl = next((u for u in range(bound + 1) if work[u]), None)
+        if lvl is None:
+            complete = bound
+            break
+        complete = lvl - 1    # (children never use fewer preemptions than their parent)
         if max_runs is not None and n >= max_runs:
             truncated = True
             break
-        prefix = work.pop()
+        prefix = work[lvl].pop()
         run = scenario(PrefixChooser(prefix))
         n += 1
         on_run(run)
@@ -474,8 +481,9 @@ def explore(scenario, bound, on_run, max_runs=None):
                     continue
                 u = pre[k] + (1 if is_preemption(en, alt, prev, pstate) else 0)
                 if u <= bound:
-                    work.append(tuple(chs[:k]) + (alt,))
-    return {"runs": n, "truncated": truncated, "pruned": pruned, "cached": cached, "states": len(visited)}
+                    work[u].append(tuple(chs[:k]) + (alt,))
+    return {"runs": n, "truncated": truncated, "pruned": pruned, "cached": cached, "states": len(visited),
+            "complete_bound": complete}
 
 
 def count_preemptions(run):
